@@ -1,4 +1,5 @@
 """C04 — automatic edge IDs are always fresh; adding never overwrites."""
+from .. import dhg as MD
 from .. import hg as MH
 from ..c04_prov import run_provenance
 from ..core import TRUSTED_COMMON, build_and_audit, finish
@@ -40,6 +41,32 @@ def pred_hg(snap, op, prev, exc):
     return fails
 
 
+FIELDS_D = ["out", "edges", "tail", "head", "eattr", "eattrK", "uid"]
+WEIGHTS_D = {"add_edge": 30, "add_edges_from": 25, "add_node_to_edge": 12, "remove_edge": 8, "remove_edges_from": 4, "relabel": 3, "copy": 3}
+
+
+def pred_dhg(snap, op, prev, exc):
+    """directed: adding calls keep every existing edge (id, position, tail, head, attributes); counter above int ids"""
+    fails = []
+    name = op["op"]
+    if name in ("add_edge", "add_edges_from") or (name == "add_node_to_edge" and op.get("e") not in prev["edges"]):
+        tab = lambda s: {repr(e): (t, h, a) for (e, t), (_, h), (_, a) in zip(s["tail"], s["head"], s["eattr"])}
+        p0, p1 = tab(prev), tab(snap)
+        for e in prev["edges"]:
+            k = repr(e)
+            if k not in p1:
+                fails.append(("existing-edge-removed", f"DiHypergraph.{name}: edge {e!r} disappeared"))
+            elif p1[k] != p0[k]:
+                fails.append(("existing-edge-altered", f"DiHypergraph.{name}: edge {e!r}: {p0[k]} -> {p1[k]}"))
+        if not fails and snap["edges"][: len(prev["edges"])] != prev["edges"]:
+            fails.append(("edge-order-changed", f"DiHypergraph.{name}: {prev['edges']} -> {snap['edges']}"))
+    if isinstance(snap.get("uid"), int):
+        bad = [e for e in snap["edges"] if isinstance(e, int) and not isinstance(e, bool) and e >= snap["uid"]]
+        if bad:
+            fails.append(("counter-not-above-ids", f"DiHypergraph after {name}: next automatic id {snap['uid']} <= existing integer ids {bad}"))
+    return fails
+
+
 def run(ctx):
     ok = build_and_audit(ctx, "XgiModel.Props.C04", ["XgiModel.Drive.HG"])
     ctx.rule = ("(a) add-heavy histories on xgi.Hypergraph (explicit ids incl. 0 / decreasing / strings, automatic ids, removals, "
@@ -49,9 +76,17 @@ def run(ctx):
                 "with >= 2 edges")
     dis, hist = run_sm(ctx, MH, "HG", FIELDS, pred_hg, ctx.n(250, 8000), weights=WEIGHTS,
                        corr_name="correspondence HG~Hypergraph (edge table + counter)")
+    from ..core import lean_build
+    ok_d, _ = lean_build(["XgiModel.C02.Drive"])
+    if not ok_d:
+        ctx.broken.append("lake build XgiModel.C02.Drive failed")
+    dis_d, hist_d = run_sm(ctx, MD, "DHG", FIELDS_D, pred_dhg, ctx.n(120, 5000), weights=WEIGHTS_D, model_ok=ok_d,
+                           corr_name="correspondence DHG~DiHypergraph (edge table + counter)")
+    dis = list(dis) + list(dis_d)
     run_provenance(ctx, ctx.n(600, 20000))
-    conclude(ctx, ok, dis, search=lambda: (targeted_search(ctx, MH, pred_hg, dis, hist, n=ctx.n(1500, 20000)),
-                                           run_provenance(ctx, ctx.n(1500, 20000))))
+    conclude(ctx, ok and ok_d, dis, search=lambda: (targeted_search(ctx, MH, pred_hg, [d for d in dis if d not in dis_d], hist, n=ctx.n(1500, 20000)),
+                                                    targeted_search(ctx, MD, pred_dhg, dis_d, hist_d, n=ctx.n(800, 10000)),
+                                                    run_provenance(ctx, ctx.n(1500, 20000))))
     ctx.assumptions = ["IDs restricted to int/str/tuple; numpy integer ids are converted by the library itself",
                        "directed and simplicial classes are covered by the provenance predicate on the implementation; their Lean models "
                        "are added when the C02/C03 models land"]
